@@ -357,3 +357,23 @@ CHECKS["C05"] = {
         J("server", VSASL, "TestC05Server", {"shards": 8, "checks": 100}, {"shards": 16, "checks": 6000}),
     ],
 }
+
+CHECKS["C18"] = {
+    "level": "exploration",
+    "engine": "E1 store-lib",
+    "level_text": "Generated YAML documents: valid configurations rendered from a description, then broken in exactly one way (missing/empty base directory, default undefined/zero/missing/negative/string, "
+                  "unknown keys at each level, id zero/missing/negative, both/no algorithm, key/cost defects, numeric edge values 0 and 1 and overflows for every number, empty/comment-only/multi documents, "
+                  "duplicate ids/keys); the generator knows the verdict by the stated acceptance rules. Every accepted parameter set is exercised (add + authenticate right/wrong) under recover. "
+                  "Reload: the built binary serves SASL+HTTP while the harness rewrites the configuration and sends SIGHUP at generated points of a client stream (black-box job).",
+    "level_note": "Trusted: the verdict table in mutateDoc() (from the property's acceptance rules); constructs the rules do not cover are tagged unspecified and only 'no panic / correct verification' is asserted. "
+                  "Resource-exhausting values (scrypt cost > 10, argon2 memory > 1 MiB) are not generated.",
+    "technique": "property-based testing (rapid) with grammar/mutation-based YAML generation and a generator-known verdict; black-box signal-injection sequences for reload",
+    "oracle": "NewDirFromConfig error <=> expected-invalid; accepted set: AddUser error, or right password ok and wrong/empty not ok, never a panic; reload: every response a normal verdict, behaviour entirely old or "
+              "entirely new (directory, default pid, users), exactly old after a failed reload",
+    "rule": "non-trivial = a document with exactly one defect or an edge value; distinct = distinct (mutation, expected verdict, accepted)",
+    "assumptions": [],
+    "required_classes": {"all": ["doc:valid", "doc:invalid", "doc:unspecified", "accepted-set:hashes-and-verifies", "mutation:argon-zero", "mutation:id-zero", "mutation:unknown-alg-key"]},
+    "jobs": [
+        J("loader", VSTORE, "TestC18Loader", {"shards": 6, "checks": 500}, {"shards": 16, "checks": 20000}),
+    ],
+}
